@@ -271,6 +271,17 @@ where
     S: proptest::strategy::Strategy<Value = T>,
     F: Fn(&T, bool) -> SimpleOut,
 {
+    drive_with_fixed(prop, engine, cfg_name, cases, seed, strat, known, replay_out, &[], run)
+}
+
+/// Like `drive`, but first executes a fixed (seed-independent, enumerated) list of cases with the
+/// same accounting; the generated cases follow only if all of them pass.
+pub fn drive_with_fixed<T, S, F>(prop: &str, engine: &str, cfg_name: &str, cases: u32, seed: u64, strat: S, known: &[String], replay_out: Option<&str>, fixed: &[T], run: F) -> (i32, serde_json::Value)
+where
+    T: serde::Serialize + Clone + std::fmt::Debug,
+    S: proptest::strategy::Strategy<Value = T>,
+    F: Fn(&T, bool) -> SimpleOut,
+{
     use proptest::test_runner::{Config, RngAlgorithm, RngSeed, TestCaseError, TestError, TestRunner};
     let state = std::cell::RefCell::new((0u64, BTreeSet::<u64>::new(), BTreeMap::<String, u64>::new(), Vec::<serde_json::Value>::new(), BTreeMap::<String, u64>::new(), false));
     let mut runner = TestRunner::new(Config {
@@ -281,7 +292,7 @@ where
         rng_seed: RngSeed::Fixed(seed),
         ..Config::default()
     });
-    let result = runner.run(&strat, |v| {
+    let eval = |v: T| {
         let out = run(&v, false);
         let mut st = state.borrow_mut();
         let mut bad = None;
@@ -312,7 +323,22 @@ where
             }
             None => Ok(()),
         }
-    });
+    };
+    let mut result = Ok(());
+    let mut fixed_run = 0u64;
+    for v in fixed {
+        fixed_run += 1;
+        if let Err(e) = eval(v.clone()) {
+            let msg = match e {
+                TestCaseError::Fail(r) | TestCaseError::Reject(r) => r,
+            };
+            result = Err(TestError::Fail(msg, v.clone()));
+            break;
+        }
+    }
+    if result.is_ok() {
+        result = runner.run(&strat, |v| eval(v));
+    }
     let st = state.into_inner();
     let mut code = 0;
     let mut violation = serde_json::Value::Null;
@@ -338,7 +364,8 @@ where
         "nontrivial_hashes": st.1.iter().collect::<Vec<_>>(),
         "classes": st.2, "foreign": {}, "known_hits": st.4, "samples": st.3, "hangs": 0, "harness_errors": 0, "harness_msgs": [],
         "events": {},
-        "extra": {"engine": engine, "config": cfg_name, "seed": seed, "violation": violation},
+        "extra": {"engine": engine, "config": cfg_name, "seed": seed, "violation": violation, "fixed_cases": fixed_run},
+        "exhaustive": if fixed.is_empty() { serde_json::Value::Null } else { json!({"scope": "fixed grid of the engine (seed-independent)", "cases": fixed_run}) },
     });
     (code, report)
 }
